@@ -24,7 +24,24 @@ def fault_list(counts, tier, rnd):
                 acts = [rnd.choice(ERRS)] + ([rnd.choice(SHORTS)] if kind in "rw" else [])
             for a in acts:
                 out.append((kind, sel, k, a))
+            # double faults: a short write followed by a failing / short / zero retry (write_data retries once), a short read
+            # followed by an error
+            if kind == "w" and (tier != "quick" or n <= 12 or k in (1, n)):
+                for a2 in (5, -1, 0):
+                    out.append([(kind, sel, k, -1), (kind, sel, k + 1, a2)])
+            if kind == "r" and (tier != "quick" or n <= 12 or k in (1, n)):
+                out.append([(kind, sel, k, -7), (kind, sel, k + 1, 5)])
     return out
+
+
+def fault_lines(f):
+    fl = f if isinstance(f, list) else [f]
+    return ["shim_fault %s %d %d %d" % x for x in fl]
+
+
+def fault_name(f, names):
+    fl = f if isinstance(f, list) else [f]
+    return " then ".join("fault %s on %s call %d action %d" % (x[0], names.get(x[1], x[1]), x[2], x[3]) for x in fl)
 
 
 def stats_counts(ev, slots, temp=True):
@@ -49,7 +66,7 @@ def writer_family(ck, rnd, tier, wd, trace, owner, scripts_by):
             out = os.path.join(wd, cid + ".zck")
             L = ["case %s 60" % cid, "ctx 0", "open 0 %s rwt" % out, "init_write 0 0"] + writegen.cfg_lines(cfg, 0, wd, cid)
             if fault:
-                L.append("shim_fault %s %d %d %d" % fault)
+                L += fault_lines(fault)
             pos = 0
             for k in seg:
                 L.append("write 0 file:%s:%d:%d" % (src, pos, k)); pos += k
@@ -70,7 +87,7 @@ def writer_family(ck, rnd, tier, wd, trace, owner, scripts_by):
     evs = common.by_case([e for part in common.run_driver_parallel(["".join(j[1] for j in jobs[k::12]) for k in range(12)], "plain", timeout=2400) for e in part])
     for (cid, s, out, D, f, i) in jobs:
         ce = evs.get(cid, [])
-        name = "writer %d, fault %s on %s call %d action %d" % (i, f[0], {0: "output", -2: "temp"}.get(f[1], f[1]), f[2], f[3])
+        name = "writer %d, %s" % (i, fault_name(f, {0: "output", -2: "temp"}))
         trace.append({"op": "wstart", "case": name}); owner.append(cid)
         for e in ce:
             if e["op"] == "write":
@@ -103,7 +120,7 @@ def reader_family(ck, rnd, tier, wd, trace, owner, scripts_by):
         def script(cid, fault=None, pre=(), p=p, sizes=sizes):
             sink = os.path.join(wd, cid + ".out")
             L = ["case %s 60" % cid, "ctx 0", "open 0 %s r" % p, "sink 0 %s" % sink]
-            if fault: L.append("shim_fault %s %d %d %d" % fault)
+            if fault: L += fault_lines(fault)
             L += ["init_read 0 0"] + list(pre) + ["read 0 %d" % n for n in sizes] + ["close 0", "shim_stats", "end"]
             return "\n".join(L) + "\n", sink
         for pre in ((), ("validate_checksums 0",), ("validate_data 0",)):
@@ -117,7 +134,7 @@ def reader_family(ck, rnd, tier, wd, trace, owner, scripts_by):
     evs = common.by_case([e for part in common.run_driver_parallel(["".join(j[1] for j in jobs[k::12]) for k in range(12)], "plain", timeout=2400) for e in part])
     for (cid, s, sink, rf, f, i, pre) in jobs:
         ce = evs.get(cid, [])
-        name = "reader %d (%s), fault %s call %d action %d" % (i, pre[0] if pre else "plain read", f[0], f[2], f[3])
+        name = "reader %d (%s), %s" % (i, pre[0] if pre else "plain read", fault_name(f, {0: "input"}))
         t = readtrace.enrich(ce, sink, rf)
         if not t or t[0]["op"] != "open":
             t = [{"op": "open", "f": readtrace.facts(rf), "ret": 0}] + t
@@ -144,9 +161,9 @@ def delta_family(ck, rnd, tier, wd, trace, owner, scripts_by):
     jobs = []
     for fi, f in enumerate(fault_list(counts, tier, rnd)):
         cid = "d-f%d" % fi
-        sc = delta.Scenario(cid, wd, B, b"", sources=[A], limit=-1, frag=16384, name="copy+download, fault %s on %s call %d action %d" % (f[0], {0: "target", 1: "source"}[f[1]], f[2], f[3]))
+        sc = delta.Scenario(cid, wd, B, b"", sources=[A], limit=-1, frag=16384, name="copy+download, " + fault_name(f, {0: "target", 1: "source"}))
         sc.write_files()
-        lines = sc.script().splitlines(); idx = lines.index("dl_init 0 0"); lines.insert(idx + 1, "shim_fault %s %d %d %d" % f)
+        lines = sc.script().splitlines(); idx = lines.index("dl_init 0 0"); lines[idx + 1:idx + 1] = fault_lines(f)
         jobs.append((cid, sc, "\n".join(lines) + "\n", f))
     evs = common.by_case([e for part in common.run_driver_parallel(["".join(j[2] for j in jobs[k::12]) for k in range(12)], "plain", timeout=2400) for e in part])
     for (cid, sc, s, f) in jobs:
@@ -170,74 +187,87 @@ def delta_family(ck, rnd, tier, wd, trace, owner, scripts_by):
 
 # ---------------------------------------------------------------- tools
 def tool_family(ck, rnd, tier, bd, wd, trace, owner):
+    """zck (plain, with a dictionary, with a split string), unzck (decompress, --header, --dict): for each run every read /
+    write / lseek on a named file role fails or is short once; for writes additionally "short, then the retry fails"."""
     zck = os.path.join(bd, "zck"); unzck = os.path.join(bd, "unzck")
     D = corpus.text(rnd, 100000)
+    dictb = corpus.text(rnd, 3000)
     d0 = os.path.join(wd, "tool-base"); os.makedirs(d0)
-    open(os.path.join(d0, "input.bin"), "wb").write(D)
-    tr = os.path.join(d0, "trace.ndjson")
-    env = dict(os.environ); env.update({"ZV_ROLES": "in=input.bin;out=input.bin.zck", "ZV_TRACE": tr})
-    subprocess.run([zck, "-o", "input.bin.zck", "input.bin"], cwd=d0, env=env, stdout=subprocess.DEVNULL, stderr=subprocess.DEVNULL, timeout=60)
-    calls = [json.loads(l) for l in open(tr)] if os.path.exists(tr) else []
-    cnt = {}
-    for c in calls:
-        key = (c["k"], c["role"]); cnt[key] = cnt.get(key, 0) + 1
-    good_zck = open(os.path.join(d0, "input.bin.zck"), "rb").read()
-    faults = []
-    for (k, role), n in cnt.items():
-        ks = range(1, n + 1) if (tier == "thorough" or n <= 6) else sorted(set([1, 2, n, n // 2] + rnd.sample(range(1, n + 1), 3)))
-        for nth in ks:
-            for a in ([5, 28] if tier == "quick" else ERRS) + ([-1] if k in "rw" else []):
-                faults.append(("zck", k, role, nth, a))
-    # unzck
-    tr2 = os.path.join(d0, "trace2.ndjson"); env2 = dict(os.environ); env2.update({"ZV_ROLES": "in=input.bin.zck;out=input.bin", "ZV_TRACE": tr2})
-    os.remove(os.path.join(d0, "input.bin"))
-    subprocess.run([unzck, "input.bin.zck"], cwd=d0, env=env2, stdout=subprocess.DEVNULL, stderr=subprocess.DEVNULL, timeout=60)
-    cnt2 = {}
-    for l in (open(tr2) if os.path.exists(tr2) else []):
-        c = json.loads(l); key = (c["k"], c["role"]); cnt2[key] = cnt2.get(key, 0) + 1
-    for (k, role), n in cnt2.items():
-        ks = range(1, n + 1) if (tier == "thorough" or n <= 6) else sorted(set([1, 2, n, n // 2] + rnd.sample(range(1, n + 1), 3)))
-        for nth in ks:
-            for a in ([5, 28] if tier == "quick" else ERRS) + ([-1] if k in "rw" else []):
-                faults.append(("unzck", k, role, nth, a))
-    def work(j):
-        i, (tool, k, role, nth, a) = j
-        d = os.path.join(wd, "tool-f%d" % i); os.makedirs(d)
-        e = dict(os.environ)
-        if tool == "zck":
-            open(os.path.join(d, "input.bin"), "wb").write(D)
-            e.update({"ZV_ROLES": "in=input.bin;out=input.bin.zck", "ZV_FAULT": "%s:%s:%d:%d" % (k, role, nth, a)})
-            try:
-                p = subprocess.run([zck, "-o", "input.bin.zck", "input.bin"], cwd=d, env=e, stdout=subprocess.DEVNULL, stderr=subprocess.DEVNULL, timeout=60); rc = p.returncode
-            except subprocess.TimeoutExpired:
-                return (j, "Hang", None)
-            outp = os.path.join(d, "input.bin.zck")
-            buf = open(outp, "rb").read() if os.path.exists(outp) else b""
+    open(os.path.join(d0, "input.bin"), "wb").write(D); open(os.path.join(d0, "dict.bin"), "wb").write(dictb)
+    subprocess.run([zck, "-o", "plain.zck", "input.bin"], cwd=d0, stdout=subprocess.DEVNULL, stderr=subprocess.DEVNULL, timeout=60)
+    subprocess.run([zck, "-D", "dict.bin", "-o", "withdict.zck", "input.bin"], cwd=d0, stdout=subprocess.DEVNULL, stderr=subprocess.DEVNULL, timeout=60)
+    good = open(os.path.join(d0, "plain.zck"), "rb").read(); goodd = open(os.path.join(d0, "withdict.zck"), "rb").read()
+    hd = ref.parse_header(goodd)
+    if not (ref.RefFile(good).valid_strict and ref.RefFile(goodd).valid_strict and hd.entries[0]["clen"] > 0):
+        raise Broken("tool baseline files are not valid")
+    detached = b"\0ZHR1" + goodd[5:hd.hdr_total + hd.entries[0]["clen"]]
+    def zck_ok(name, content):
+        def f(d):
+            pth = os.path.join(d, name); buf = open(pth, "rb").read() if os.path.exists(pth) else b""
             rf = ref.RefFile(buf)
-            return (j, rc, {"valid": bool(rf.valid_strict), "contentEq": rf.content is not None and rf.content == D})
-        else:
-            open(os.path.join(d, "input.bin.zck"), "wb").write(good_zck)
-            e.update({"ZV_ROLES": "in=input.bin.zck;out=input.bin", "ZV_FAULT": "%s:%s:%d:%d" % (k, role, nth, a)})
-            try:
-                p = subprocess.run([unzck, "input.bin.zck"], cwd=d, env=e, stdout=subprocess.DEVNULL, stderr=subprocess.DEVNULL, timeout=60); rc = p.returncode
-            except subprocess.TimeoutExpired:
-                return (j, "Hang", None)
-            outp = os.path.join(d, "input.bin")
-            got = open(outp, "rb").read() if os.path.exists(outp) else None
-            return (j, rc, got == D)
+            return bool(rf.valid_strict) and rf.content is not None and rf.content == content
+        return f
+    def file_is(name, want):
+        def f(d):
+            pth = os.path.join(d, name)
+            return os.path.exists(pth) and open(pth, "rb").read() == want
+        return f
+    # (tool id, argv, input files, roles, oracle over the run directory)
+    RUNS = [("zck", [zck, "-o", "input.bin.zck", "input.bin"], {"input.bin": D}, "in=input.bin;out=input.bin.zck", zck_ok("input.bin.zck", D)),
+            ("zck -D", [zck, "-D", "dict.bin", "-o", "input.bin.zck", "input.bin"], {"input.bin": D, "dict.bin": dictb}, "in=input.bin;out=input.bin.zck;dict=dict.bin", zck_ok("input.bin.zck", D)),
+            ("zck -s", [zck, "-s", "the", "-o", "input.bin.zck", "input.bin"], {"input.bin": D}, "in=input.bin;out=input.bin.zck", zck_ok("input.bin.zck", D)),
+            ("unzck", [unzck, "input.bin.zck"], {"input.bin.zck": good}, "in=input.bin.zck;out=input.bin", file_is("input.bin", D)),
+            ("unzck (dict file)", [unzck, "withdict.zck"], {"withdict.zck": goodd}, "in=withdict.zck;out=withdict", file_is("withdict", D)),
+            ("unzck --header", [unzck, "--header", "withdict.zck"], {"withdict.zck": goodd}, "in=withdict.zck;out=withdict.zhr", file_is("withdict.zhr", detached)),
+            ("unzck --dict", [unzck, "--dict", "withdict.zck"], {"withdict.zck": goodd}, "in=withdict.zck;out=withdict.zdict", file_is("withdict.zdict", dictb))]
+    faults = []
+    for ri, (tool, argv, files, roles, oracle) in enumerate(RUNS):
+        d = os.path.join(wd, "tool-count-%d" % ri); os.makedirs(d)
+        for fn, data in files.items():
+            open(os.path.join(d, fn), "wb").write(data)
+        tr = os.path.join(d, "trace.ndjson")
+        env = dict(os.environ); env.update({"ZV_ROLES": roles, "ZV_TRACE": tr})
+        p = subprocess.run(argv, cwd=d, env=env, stdout=subprocess.DEVNULL, stderr=subprocess.DEVNULL, timeout=60)
+        if p.returncode != 0 or not oracle(d):
+            raise Broken("fault-free tool run failed its own oracle: %s (rc=%s)" % (tool, p.returncode))
+        cnt = {}
+        for l in (open(tr) if os.path.exists(tr) else []):
+            c = json.loads(l); key = (c["k"], c["role"]); cnt[key] = cnt.get(key, 0) + 1
+        for (k, role), n in sorted(cnt.items()):
+            ks = range(1, n + 1) if (tier == "thorough" or n <= 6) else sorted(set([1, 2, n, n // 2] + rnd.sample(range(1, n + 1), 3 if ri < 2 or ri == 3 else 1)))
+            for nth in ks:
+                for a in ([5, 28] if tier == "quick" else ERRS) + ([-1] if k in "rw" else []):
+                    faults.append((ri, [(k, role, nth, a)]))
+                if k == "w":        # a short write whose retry fails, or is short again
+                    for a2 in ((5, -1) if tier == "quick" else (5, 28, -1, 0)):
+                        faults.append((ri, [(k, role, nth, -1), (k, role, nth + 1, a2)]))
+    def work(j):
+        i, (ri, fl) = j
+        tool, argv, files, roles, oracle = RUNS[ri]
+        d = os.path.join(wd, "tool-f%d" % i); os.makedirs(d)
+        for fn, data in files.items():
+            open(os.path.join(d, fn), "wb").write(data)
+        e = dict(os.environ)
+        e.update({"ZV_ROLES": roles, "ZV_FAULT": ";".join("%s:%s:%d:%d" % f for f in fl)})
+        try:
+            p = subprocess.run(argv, cwd=d, env=e, stdout=subprocess.DEVNULL, stderr=subprocess.DEVNULL, timeout=60); rc = p.returncode
+        except subprocess.TimeoutExpired:
+            return (j, "Hang", None)
+        ok = oracle(d)
+        shutil.rmtree(d, ignore_errors=True)
+        return (j, rc, ok)
     with ThreadPoolExecutor(max_workers=common.NCPU) as ex:
         res = list(ex.map(work, list(enumerate(faults))))
-    for (j, rc, f) in res:
-        i, (tool, k, role, nth, a) = j
+    for (j, rc, ok) in res:
+        i, (ri, fl) = j
+        tool = RUNS[ri][0]
         cid = "tool-f%d" % i
-        name = "%s, fault %s on %s call %d action %d" % (tool, k, role, nth, a)
+        name = "%s, %s" % (tool, " then ".join("fault %s on %s call %d action %d" % f for f in fl))
         trace.append({"op": "wstart", "case": name}); owner.append(cid)
         if rc == "Hang" or (isinstance(rc, int) and (rc < 0 or rc in (134, 139))):
             trace.append({"op": "Crash" if rc != "Hang" else "Hang", "tool": tool, "rc": str(rc)}); owner.append(cid)
-        elif tool == "zck":
-            trace.append({"op": "zck", "status": rc, "f": f}); owner.append(cid)
         else:
-            trace.append({"op": "unzckf", "status": rc, "outEq": bool(f)}); owner.append(cid)
+            trace.append({"op": "toolf", "tool": tool, "status": rc, "outOk": bool(ok)}); owner.append(cid)
         ck.case(name)
     return len(faults)
 
